@@ -215,6 +215,10 @@ fn join<T: ToString>(xs: impl IntoIterator<Item = T>, sep: &str) -> String {
     }
 }
 
+fn stripped_lens(s: &Sfnt, cl: &BTreeSet<u16>) -> String {
+    join(cl.iter().map(|g| format!("{}:{}", g, s.glyph_bytes(*g).map(stripped_len).unwrap_or(0))), ",")
+}
+
 fn is_cff(s: &Sfnt) -> bool {
     s.rec(b"CFF ").is_some()
 }
@@ -236,11 +240,13 @@ fn make_tt(id: &str, used: &[u32], with_all: bool) -> Option<String> {
     let facts = join(cl.iter().map(|g| fact_line(&s, *g)), ";");
     let all = if with_all { join(cmap.iter().map(|(c, g)| format!("{}:{}", c, g)), ",") } else { "?".into() };
     Some(format!(
-        "tt font={} used={} size={} ng={} cff=0 cmap={} allcmap={} g={}",
+        "tt font={} used={} size={} ng={} cff=0 lf={} sl={} cmap={} allcmap={} g={}",
         id,
         join(used.iter(), ","),
         bytes.len(),
         ng,
+        s.loca_format().unwrap_or(1),
+        stripped_lens(&s, &cl),
         join(mapped.iter().map(|(c, g)| format!("{}:{}", c, g)), ","),
         all,
         facts
@@ -254,10 +260,12 @@ fn make_tg(id: &str, used: &[u16]) -> Option<String> {
     init.insert(0);
     let cl = closure_of(&s, &init);
     Some(format!(
-        "tg font={} used={} cff={} g={}",
+        "tg font={} used={} cff={} lf={} sl={} g={}",
         id,
         join(used.iter(), ","),
         is_cff(&s) as u8,
+        s.loca_format().unwrap_or(1),
+        if is_cff(&s) { "-".to_string() } else { stripped_lens(&s, &cl) },
         if is_cff(&s) { "-".to_string() } else { join(cl.iter().map(|g| fact_line(&s, *g)), ";") }
     ))
 }
